@@ -5,6 +5,7 @@ import Fx.Lemmas.NoPanic
 import Fx.Lemmas.EmitPlans
 import Fx.Lemmas.Terminates
 import Fx.Lemmas.Fuel
+import Fx.Lemmas.Linear
 namespace Fx.C04
 open Fx
 
@@ -104,5 +105,22 @@ example : (Plans.mk [⟨"node", false, .struct [.plain "v" (.one (.prim .u32)), 
 
 /-- and a type that contains itself directly is not -/
 example : (Plans.mk [⟨"bad", false, .struct [.plain "x" (.one (.tryFrom "bad"))]⟩] []).finite = false := by decide
+
+/-- **C04 (the recursion depth is bounded by an explicit function of the input length).**  For every specification with finite
+    types, `p.budget k` — computed from the plans alone (Lemmas/Linear) — is a recursion budget at which every decoder answers on
+    EVERY buffer shorter than `4 (k + 1)` bytes; so on a buffer of `n` bytes the nesting of decoder calls never exceeds
+    `p.budget (n / 4)`.  A reference behind `Option<Box<_>>` / `Vec<_>` costs one level only after 4 bytes have been consumed.
+    This is the quantitative half of "never overflows the stack": the depth is a function of the input length that the driver
+    evaluates (a constant per 4 bytes on the campaign's recursive types, examples below); the other half — that the machine stack
+    holds that many frames — is finding K5 (recorded: a chain of 5·10⁴ optional links overflows an 8 MB stack). -/
+theorem C04_depth_bounded_by_input (a : Ast) (p : Plans) (hfin : p.finite = true) (name : String) (c : Cur) :
+    ∀ f, p.budget (c.remaining / 4) ≤ f → evalImpl a p f name c ≠ .outOfFuel :=
+  fun f hf => budget_suffices a p hfin (c.remaining / 4) name c (by omega) f hf
+
+/-- the budget of the list type `struct node { unsigned v; node *next; }` on buffers of under 4, 8, 12, 16 and 44 bytes: 4, 7, 10, 13, 34 —
+    three budget units (one nesting of `node::try_from`: impl, field list, field) per 4 bytes -/
+example :
+    let p : Plans := ⟨[⟨"node", false, .struct [.plain "v" (.one (.prim .u32)), .optional "next" "node"]⟩], []⟩
+    p.finite = true ∧ p.budget 0 = 4 ∧ p.budget 1 = 7 ∧ p.budget 2 = 10 ∧ p.budget 3 = 13 ∧ p.budget 10 = 34 := by decide
 
 end Fx.C04
